@@ -97,6 +97,24 @@ class Obj:
     __slots__ = ("name", "cells", "live")
     def __init__(self, name, n, init=None):
         self.name = name; self.cells = [init] * n; self.live = True
+class _FieldCells:
+    """cells view of one component of a struct stored as a dict in cell `off` of `obj`"""
+    def __init__(self, obj, off, name): self.obj = obj; self.off = off; self.name = name
+    def _d(self):
+        if self.off < 0 or self.off >= len(self.obj.cells): raise MemError("struct access out of bounds in " + self.obj.name)
+        d = self.obj.cells[self.off]
+        if d is None: d = {}; self.obj.cells[self.off] = d
+        if not isinstance(d, dict): raise ExecError("member access on a non-struct cell")
+        return d
+    def __len__(self): return 1
+    def __getitem__(self, i):
+        if isinstance(i, slice): return [self._d().get(self.name)]
+        return self._d().get(self.name)
+    def __setitem__(self, i, v): self._d()[self.name] = v
+class FieldObj:
+    def __init__(self, obj, off, name): self.name = "%s.%s" % (obj.name, name); self.cells = _FieldCells(obj, off, name); self.base = obj
+    @property
+    def live(self): return self.base.live
 class Ptr:
     __slots__ = ("obj", "off")
     def __init__(self, obj, off): self.obj = obj; self.off = off
@@ -147,7 +165,7 @@ class Interp:
     # ---- types
     def cells(self, t):
         i = tid(t)
-        if i in ("signedbv", "unsignedbv", "floatbv", "pointer", "bool", "c_bool", "c_enum_tag"): return 1
+        if i in ("signedbv", "unsignedbv", "floatbv", "pointer", "bool", "c_bool", "c_enum_tag", "struct_tag", "struct"): return 1
         if i in ("array", "vector"):
             return self.int_of(self.eval(nsub(t, "size"))) * self.cells(t["sub"][0])
         raise ExecError("unsupported type " + i)
@@ -181,6 +199,9 @@ class Interp:
             return p.obj, p.off
         if i == "typecast":
             return self.place(e["sub"][0])
+        if i == "member":
+            o, off = self.place(e["sub"][0])
+            return FieldObj(o, off, nsub(e, "component_name")["id"]), 0
         raise ExecError("unsupported lvalue " + i)
     def load(self, o, off, t):
         n = self.cells(t)
@@ -215,7 +236,7 @@ class Interp:
             raise ExecError("constant of type " + ti)
         if i == "symbol":
             o, off = self.place(e); return self.load(o, off, nsub(e, "type"))
-        if i in ("index", "dereference"):
+        if i in ("index", "dereference", "member"):
             o, off = self.place(e); return self.load(o, off, nsub(e, "type"))
         if i == "address_of":
             o, off = self.place(e["sub"][0]); return Ptr(o, off)
